@@ -222,7 +222,14 @@ func extJobs(tier string) []treeJob {
 
 func seqBounds(tier string) (maxN int, lenFor func(n int) int) {
 	if tier == "thorough" {
-		return 4, func(int) int { return 5 }
+		// histories of length 5 for trees of up to 3 nodes, length 4 for the (many) 4-node trees: the full
+		// 4-node x length-5 product costs about 6000 CPU-seconds, well over the thorough budget on a shared machine
+		return 4, func(n int) int {
+			if n >= 4 {
+				return 4
+			}
+			return 5
+		}
 	}
 	return 3, func(int) int { return 4 }
 }
